@@ -487,7 +487,9 @@ class Spy:
 DTS = [-20e-3, -1e-3, 0.0, 1e-3, 4e-3, 5e-3, 6e-3, 20e-3]
 
 
-def run_est(initialize, dt_min, word):
+def run_est(initialize, dt_min, word, reuse_msgs=False):
+    """reuse_msgs: the publisher keeps ONE message object per topic and overwrites its fields for every publication (as the packaged
+    Simulator does) instead of allocating a fresh message"""
     dt_min_accel, dt_min_mag = dt_min
     c = uros.Core()
     pub_imu = uros.Publisher(c, "imu", msgs.Imu)
@@ -500,17 +502,18 @@ def run_est(initialize, dt_min, word):
         c.set_param("mrp/dt_min_mag", dt_min_mag)
         t = 0.01
         log = []
+        keep = {"imu": msgs.Imu(), "mag": msgs.Mag()}
         for sensor, dt in word:
             t = t + dt
             n0 = len(spy.calls)
             if sensor == "imu":
-                m = msgs.Imu()
+                m = keep["imu"] if reuse_msgs else msgs.Imu()
                 m.data["time"] = t
                 m.data["gyro"] = [0.1, 0.2, 0.3]
                 m.data["accel"] = [0, 0, -9.8]
                 pub_imu.publish(m)
             else:
-                m = msgs.Mag()
+                m = keep["mag"] if reuse_msgs else msgs.Mag()
                 m.data["time"] = t
                 m.data["mag"] = [0.1, 0, 0]
                 pub_mag.publish(m)
@@ -520,6 +523,7 @@ def run_est(initialize, dt_min, word):
 
 def explore_est(case):
     tier, initialize, dt_min, first = case["tier"], case["initialize"], tuple(case["dt_min"]), case["first"]
+    reuse = bool(case.get("reuse_msgs"))
     depth = 5 if tier == "thorough" else 4
     res = core.Result()
     evs = [(s, d) for s in ("imu", "mag") for d in DTS]
@@ -533,7 +537,7 @@ def explore_est(case):
             res.count("states", len(word))
             res.count("traces_validated_against_impl", len(word))
             try:
-                log = run_est(initialize, dt_min, word)
+                log = run_est(initialize, dt_min, word, reuse_msgs=reuse)
             except Exception as ex:
                 res.fail(site="AttitudeEstimator", clause="no_exception", cls="init=%s" % initialize, detail=dict(word=list(word), error="%s: %s" % (type(ex).__name__, str(ex)[:200])),
                          sub="est", case=case)
@@ -545,8 +549,13 @@ def explore_est(case):
             seen_imu = seen_mag = False
             last = dict(accel=None, mag=None)
             info = dict(initialize=initialize, dt_min=dt_min, word=[list(w) for w in word])
+            t_prev_imu = 0.0
             for sensor, t, calls, preds in log:
                 if sensor == "imu":
+                    if inited and t - t_prev_imu > 0 and "predict" not in calls:
+                        res.fail(site="AttitudeEstimator", clause="predicts_on_every_imu_message_that_advances_time", cls="reused_message_object" if reuse else "fresh_messages",
+                                 detail=dict(info, t=t, previous_imu=t_prev_imu), sub="est", case=case)
+                    t_prev_imu = t
                     seen_imu = True
                 else:
                     seen_mag = True
@@ -655,6 +664,79 @@ def explore_estparams(case):
     return res
 
 
+def explore_twoest(case):
+    """two estimator nodes on one core: both receive every sensor message with the published content (a node must not edit the message it
+    is handed: the same object goes to the next subscriber).  Spies record what each node's equations are given."""
+    tier, first = case["tier"], case["first"]
+    res = core.Result()
+    depth = 4 if tier == "thorough" else 3
+    evs = [(s_, d_) for s_ in ("imu", "mag") for d_ in (5e-3, 20e-3)]
+    for d in range(1, depth + 1):
+        for tail in itertools.product(evs, repeat=d - 1):
+            word = (evs[first],) + tail
+            res.count("evaluations")
+            res.count("transitions", len(word))
+            res.count("states", len(word))
+            res.count("traces_validated_against_impl", len(word))
+            res.nontrivial.add(hash(word))
+            c = uros.Core()
+            pub_imu = uros.Publisher(c, "imu", msgs.Imu)
+            pub_mag = uros.Publisher(c, "mag", msgs.Mag)
+            seen = {"one": [], "two": []}
+
+            def eqs_for(tag):
+                x0 = np.array([0.0, 0, 0, 0.3, -0.2, 0.1])  # non-zero gyro-bias estimate
+                return dict(constants=lambda: dict(x0=x0, W0=np.eye(6)), initialize=lambda g_b, B_b, decl: (x0, 0),
+                            predict=lambda t, x, W, om, sg, sn, dt: (seen[tag].append(("gyro", tuple(float(v) for v in np.array(om).reshape(-1)))), (x, W))[1],
+                            get_state=lambda x: (np.array([1.0, 0, 0, 0]), np.zeros(3), np.array(x[3:6], dtype=float)),
+                            correct_accel=lambda x, W, y, g, om, sa, sao, bc: (seen[tag].append(("accel", tuple(float(v) for v in np.array(y).reshape(-1)))), (x, W, 0.0, np.zeros(2), np.zeros(2), 0.0))[1],
+                            correct_mag=lambda x, W, y, decl, sm, bc: (seen[tag].append(("mag", tuple(float(v) for v in np.array(y).reshape(-1)))), (x, W, 0.0, np.zeros(1), np.zeros(1), 0.0))[1])
+            try:
+                with contextlib.redirect_stdout(io.StringIO()):
+                    AttitudeEstimator(c, "one", eqs_for("one"), False)
+                    AttitudeEstimator(c, "two", eqs_for("two"), False)
+                    c.init_params()
+                    t = 0.0
+                    sent = []
+                    for k, (sensor, dt) in enumerate(word):
+                        t += dt
+                        if sensor == "imu":
+                            m = msgs.Imu()
+                            m.data["time"] = t
+                            gy, ac = [0.1 + k, 0.2, 0.3 - k], [0.0, 0.1 * k, -9.8]
+                            m.data["gyro"] = gy
+                            m.data["accel"] = ac
+                            sent.append(("gyro", tuple(float(v) for v in gy)))
+                            pub_imu.publish(m)
+                        else:
+                            m = msgs.Mag()
+                            m.data["time"] = t
+                            mg = [0.1, 0.01 * k, 0.0]
+                            m.data["mag"] = mg
+                            pub_mag.publish(m)
+            except Exception as ex:
+                res.fail(site="AttitudeEstimator", clause="no_exception", cls="two_estimators", detail=dict(word=[list(w) for w in word], error="%s: %s" % (type(ex).__name__, str(ex)[:200])), sub="twoest", case=case)
+                continue
+            g1 = [v for k_, v in seen["one"] if k_ == "gyro"]
+            g2 = [v for k_, v in seen["two"] if k_ == "gyro"]
+            want = [v for k_, v in sent if k_ == "gyro"]
+            res.outcomes.add(hash((tuple(g1), tuple(seen["one"]))))
+            if seen["one"] != seen["two"] or g1 != want[len(want) - len(g1):]:
+                res.fail(site="AttitudeEstimator", clause="every_node_sees_the_published_message_content", cls="two_estimators",
+                         detail=dict(word=[list(w) for w in word], first_node=seen["one"][:6], second_node=seen["two"][:6], published_gyro=want), sub="twoest", case=case)
+    return res
+
+
+class _TwoEst:
+    chunks = 1
+
+    def cases(self, tier, seed):
+        return [dict(sub="twoest", tier=tier, first=f) for f in range(4)]
+
+    def run(self, case):
+        return explore_twoest(case)
+
+
 class _EstP:
     chunks = 1
 
@@ -679,12 +761,15 @@ class _Est:
     chunks = 1
 
     def cases(self, tier, seed):
-        return [dict(sub="est", tier=tier, initialize=i, dt_min=d, first=f) for i in (True, False) for d in ((5e-3, 5e-3), (20e-3, 20e-3), (5e-3, 20e-3), (20e-3, 5e-3)) for f in range(16)]
+        out = [dict(sub="est", tier=tier, initialize=i, dt_min=d, first=f) for i in (True, False) for d in ((5e-3, 5e-3), (20e-3, 20e-3), (5e-3, 20e-3), (20e-3, 5e-3)) for f in range(16)]
+        # the same words with one message object per topic reused by the publisher
+        out += [dict(sub="est", tier=tier, initialize=i, dt_min=(5e-3, 20e-3), first=f, reuse_msgs=True) for i in (True, False) for f in range(16)]
+        return out
 
     def run(self, case):
         return explore_est(case)
 
 
-SUBCHECKS = {"twin": _Twin(), "bus": _Bus(), "est": _Est(), "estparams": _EstP(), "longlog": _LongLog()}
+SUBCHECKS = {"twin": _Twin(), "twoest": _TwoEst(), "bus": _Bus(), "est": _Est(), "estparams": _EstP(), "longlog": _LongLog()}
 REPLAY = {"bus": lambda c: explore_bus(c).fails, "est": lambda c: explore_est(c).fails, "estparams": lambda c: explore_estparams(c).fails,
-          "longlog": lambda c: explore_longlog(c).fails, "twin": lambda c: explore_twin(c).fails}
+          "longlog": lambda c: explore_longlog(c).fails, "twin": lambda c: explore_twin(c).fails, "twoest": lambda c: explore_twoest(c).fails}
